@@ -67,8 +67,13 @@ def run(ctx):
     for kind, want in (("String", "Result::Ok(CanonicalJsonValue::String(val.String.0))"), ("Bool", "Result::Ok(CanonicalJsonValue::Bool(val.Bool.0))")):
         ctx.check(any(D.show(p.ret) == want for p in paths), "C01.numbers", f"C01.numbers:passthrough:{kind}", w.where(f), bad_msg=f"{kind} is not passed through unchanged")
     arr = [p for p in paths if p.kind == "ret" and U.is_ok(p.ret) and "Array(" in D.show(p.ret)]
-    ctx.check(bool(arr) and all("fn[core::convert::TryInto::try_into]" in D.show(p.ret) and "into_iter(val.Array.0)" in D.show(p.ret) for p in arr),
-              "C01.numbers", "C01.numbers:array-elements", w.where(f), bad_msg="array elements are not converted with the same fallible conversion")
+    # every element goes through the fallible conversion (TryInto::try_into / TryFrom::try_from / Self::try_from, or a closure around it) and the
+    # FIRST failure fails the whole array: the collected value is a Result whose Ok payload becomes the array (no filter/flat_map that drops items)
+    ARR = re.compile(r"Result::Ok\(CanonicalJsonValue::Array\(Iterator::collect\(Iterator::map\(IntoIterator::into_iter\(val\.Array\.0\), "
+                     r"(?:fn\[(?:core::convert::TryInto::try_into|core::convert::TryFrom::try_from|[^\]]*CanonicalJsonValue[^\]]*::try_from)\]|closure\[[^\]]+\](?:\{.*\})?)\)\)\.Ok\.0\)\)")
+    ctx.check(bool(arr) and all(ARR.fullmatch(D.show(p.ret)) is not None for p in arr),
+              "C01.numbers", "C01.numbers:array-elements", w.where(f),
+              bad_msg=f"array elements are not all converted with the fallible conversion, failing the array on the first error: {[D.show(p.ret)[:160] for p in arr][:1]}")
     objp = [p for p in paths if p.kind == "ret" and U.is_ok(p.ret) and "CanonicalJsonValue::Object(" in D.show(p.ret)]
     good = bool(objp)
     if good:
